@@ -187,6 +187,13 @@ DESC = {"fifo_progress": "a non-empty batch starts with the next undelivered ele
 
 
 def check_collect(chk, prefix="C05"):
+    done = getattr(chk, "_listed", None)
+    if done is None:
+        done = chk._listed = set()
+    if "collect_run" in done:
+        return None
+    done.add("collect_run")
+    done.add("collect")
     eng = Engine(hooks=BatcherHooks())
     st = St()
     self_, g = make_state_obj(eng, st, chk, prefix + ".collect")
@@ -235,6 +242,18 @@ def woken_range(st, lo, hi, name="i", err=None, before=None):
 
 
 def check_consumer(chk, prefix, want=("C03", "C05", "C06", "C01")):
+    done = getattr(chk, "_listed", None)
+    if done is None:
+        done = chk._listed = set()
+    # the consumer is verified AGAINST the contracts of _collect_checkpoint_batch and fetch_paginated_operations: a check that relies on the consumer
+    # discharges those two contracts as well (once), instead of leaving them to a sibling check
+    if "collect" not in done:
+        done.add("collect")
+        check_collect(chk, prefix)
+    if "merge" not in done:
+        done.add("merge")
+        from . import state_contracts as _S
+        _S.merge_all_pages(chk, prefix)
     eng = Engine(hooks=BatcherHooks())
     st = St()
     self_, g0 = make_state_obj(eng, st, chk, prefix + ".consumer")
